@@ -140,16 +140,6 @@ func mergeVal(old, v *Node, h Handling, path []string, o *MergeOpts, st *MergeSt
 	if old == nil {
 		return v.Copy()
 	}
-	if old.K == KNil && v.K == KNil {
-		// nil on both sides: nil-or-empty; represented as an empty container, on
-		// which kind- and count-observations are not made
-		return &Node{K: KSub, Src: v.Src}
-	}
-	if old.K == KNil && v.K == KSub && v.Empty() {
-		// an empty list or dictionary in B replaces nothing: over a nil this is
-		// nil-or-empty, without a kind of its own
-		return &Node{K: KSub, Src: v.Src}
-	}
 	if old.K != KSub {
 		// A is not a container: B's value (also when B is nil)
 		if v.K == KSub {
